@@ -1,6 +1,6 @@
 """Shared driver for the one-step queries on emitted ANSI-C machines (C02, C04 and the emitted-C parts of
 C07/C08/C10/C11): document selection, parallel CBMC runs, witness twins, counterexample replay."""
-import os, random, json
+import re, os, random, json
 from common import *
 import chartgen, genc
 
@@ -129,8 +129,16 @@ class StepRun:
                         chk.infra_problem('%s/%s: no verdict (%s) within %ds on a required document' % (c.name, q['name'], r.status, timeout))
                     continue
                 props = sorted(set(d for n, d in r.failed))
-                other = [d for d in props if not d.startswith(prop_prefix) and not d.startswith('C0')]
+                other = [d for d in props if not d.startswith(prop_prefix) and not re.match(r'C\d\d', d)]
                 mine = [d for d in props if d.startswith(prop_prefix)]
+                if q.get('baseline'):
+                    # differential query: every behavioural difference counts, but only when the baseline query
+                    # (same document, same harness, the distinguishing input class switched off) holds
+                    base = table.get((c.name, q['baseline'], False))
+                    if base is None or base.status != 'success':
+                        chk.extra.setdefault('differential_skipped', []).append({'doc': c.name, 'baseline': base.status if base else 'missing'})
+                        continue
+                    mine = [d for d in props if re.match(r'C\d\d', d)]
                 memsafety = [d for d in other if 'unwinding' not in d and 'BOUND' not in d and 'INCONCLUSIVE' not in d]
                 if [d for d in other if d not in memsafety]:
                     chk.infra_problem('%s/%s: inconclusive (bound exceeded): %s' % (c.name, q['name'], [d for d in other if d not in memsafety][:3]))
